@@ -72,7 +72,8 @@ class Check:
         from .facts import AnalysisBroken
         # vacuity floors (a rule that found violations is not vacuous: report those instead)
         has_failed = any(not o.ok for o in self.obls)
-        for rid, floor in ([] if has_failed else self.floors.items()):
+        relaxed = bool(os.environ.get('VERIF_VARIANT'))   # floors are calibrated on (and enforced for) the as-configured build
+        for rid, floor in ([] if (has_failed or relaxed) else self.floors.items()):
             n = sum(1 for o in self.obls if o.rule == rid)
             if n < floor:
                 raise AnalysisBroken('rule %s matched %d instance(s), floor is %d — the rule '
